@@ -21,11 +21,12 @@ from mc.models import ini, legacy
 ID = "C05"
 LEVEL = "model_checking"
 VERSIONS = {"ci": ["0.0", "0.2", "0.3", "0.4", "0.9", "1.0", "1.1"], "im": ["1.0", "1.1"], "rpms": ["0.3", "1.0", "1.1"],
-            "ti": ["0.3", "1.0", "1.1"]}
+            "ti": ["0.0", "0.3", "1.0", "1.1"]}
 REQUIRED_OUTCOMES = (["ci:%s:upgraded" % v for v in VERSIONS["ci"]] + ["im:%s:upgraded" % v for v in VERSIONS["im"]] +
                      ["rpms:%s:upgraded" % v for v in VERSIONS["rpms"]] + ["ti:%s:upgraded" % v for v in VERSIONS["ti"]] +
                      ["fixture:treeinfo:upgraded", "fixture:images:upgraded", "fixture:composeinfo:upgraded",
-                      "ci:prefix-related-variants", "im:src-arch-layout", "rpms:src-arch-layout", "ci:id-only-compose"])
+                      "ci:prefix-related-variants", "im:src-arch-layout", "rpms:src-arch-layout", "ci:id-only-compose",
+                      "ti:legacy-source-tree"])
 CURRENT = "1.2"
 TYPES = {"ci": "productmd.composeinfo", "im": "productmd.images", "rpms": "productmd.rpms", "ti": "productmd.treeinfo"}
 
@@ -132,13 +133,69 @@ def make_im(spec, version):
     return json.dumps(old), exp
 
 
+HACK_NAMES = ("Red Hat Enterprise Linux", "Subscription Asset Manager", "Red Hat Storage", "JBEAP", "Fedora", "CentOS", "EulerOS")
+
+
 def make_ti(spec, version):
-    if legacy.vt(version) <= (0, 3) and spec["tree"]["arch"] == "src":
-        return None                                   # 0.3 source trees used other path keys; mapping not documented
+    from mc.checks.c07 import render
+    if version == "0.0":
+        return make_ti_00(spec)
     text = TI.dumps(TI.build(spec))
     old, _ = legacy.treeinfo(ini.parse(text), version)
-    from mc.checks.c07 import render
+    if legacy.vt(version) <= (0, 3) and spec["tree"]["arch"] == "src":
+        # a 0.3 source tree keeps its source packages/repository under the plain keys (the mapping is read off the 0.3 reader:
+        # it is not documented anywhere else)
+        if any(k in v["paths"] and v["paths"][k] is not None for v, _, _ in TI.walk(spec["variants"]) for k in ("packages", "repository")):
+            return None
+        ren = {"source_packages": "packages", "source_repository": "repository"}
+        old = [(n, [(ren.get(k, k), val) for k, val in opts] if n.startswith(("variant-", "addon-")) else opts) for n, opts in old]
     return render(old), TI.expected_observation(spec)
+
+
+def make_ti_00(spec):
+    """A pre-productmd tree: only the compatibility section and the image / stage2 / checksum sections, bare digests,
+    media numbers in [general].  Only shapes that format can express: one childless top-level variant without a dash, plain
+    paths of the main kinds, names without per-product hacks."""
+    from mc.checks.c07 import render
+    src = spec["tree"]["arch"] == "src"
+    kinds = ("source_packages", "source_repository") if src else ("packages", "repository")
+    if len(spec["variants"]) != 1 or spec["variants"][0]["children"] or "-" in spec["variants"][0]["uid"]:
+        return None
+    v = spec["variants"][0]
+    paths = {k: val for k, val in v["paths"].items() if val is not None}
+    if set(paths) != set(kinds):
+        return None
+    pk, rp = paths[kinds[0]], paths[kinds[1]]
+    if not pk.strip("/.") or pk.endswith("/") or pk.startswith(".") or rp.endswith("/") or (rp != "." and (not rp.strip("/.") or rp.startswith("."))):
+        return None
+    name = spec["release"]["name"]
+    if (name != "Fedora" and name.startswith(HACK_NAMES)) or name.strip() != name or not name:
+        return None
+    if spec["base_product"] or any(t not in ("md5", "sha1", "sha256") for t, _ in spec["checksums"].values()):
+        return None
+    text = TI.dumps(TI.build(spec))
+    doc = ini.parse(text)
+    out = []
+    for sec, opts in doc:
+        opts = [(k, val) for k, val in opts if not k.startswith(";")]
+        if sec == "general":
+            if spec["media"]:
+                opts += [("discnum", str(spec["media"]["discnum"])), ("totaldiscs", str(spec["media"]["totaldiscs"]))]
+            out.append((sec, opts))
+        elif sec.startswith("images-") or sec == "stage2":
+            out.append((sec, opts))
+        elif sec == "checksums":
+            out.append((sec, [(k, val.split(":", 1)[1]) for k, val in opts]))
+    exp = TI.expected_observation(spec)
+    exp["release"]["short"] = "Fedora" if name == "Fedora" else ""      # the one per-product rule kept in the alphabet
+    exp["release"]["is_layered"] = False
+    exp["tree"]["platforms"] = sorted({spec["tree"]["arch"]} | set(spec["images"]))
+    exp["tree"]["build_timestamp"] = int(spec["tree"]["build_timestamp"])
+    exp["variants"] = [{"id": v["id"], "uid": v["uid"], "name": v["id"], "type": "variant", "paths": dict(paths), "_parent": None,
+                        "children": []}]
+    if v["id"] != v["uid"]:
+        return None
+    return render(out), exp
 
 
 def make_rpms(hist, version):
@@ -267,6 +324,8 @@ def run_unit(unit, acc):
                         acc.outcome("ci:id-only-compose")
                     if fmt == "im" and any(s["arch"] == "src" for s in spec["images"]):
                         acc.outcome("im:src-arch-layout")
+                    if fmt == "ti" and legacy.vt(version) <= (0, 3) and spec["tree"]["arch"] == "src":
+                        acc.outcome("ti:legacy-source-tree")
             if last is not None and last[0] in ("addvar", "alias", "image"):
                 acc.sample({"format": fmt, "seed": trace[0], "edits": trace[1:], "versions": VERSIONS[fmt]}, limit=3)
         explorer.explore_unit(Universe(fmt), u, bound(tier, fmt), acc, visit)
@@ -332,7 +391,7 @@ def describe(tier):
                 "%s; images %s; rpms %s; treeinfo %s) by mc/models/legacy.py: header type and release/base-product type removed "
                 "(< 1.1), child lists removed so that variants are related by UID prefix only (< 1.0), release -> product section "
                 "(<= 0.3), compose date/respin only inside the id (< 0.3), subvariant removed (images 1.0), source images / source RPMs "
-                "under a 'src' arch, rpms 0.3 'manifest' layout, treeinfo [product] section; plus every fixture under tests/treeinfo, "
+                "under a 'src' arch, rpms 0.3 'manifest' layout, treeinfo [product] section, pre-productmd [general]-only files with bare digests and media numbers in [general]; plus every fixture under tests/treeinfo, "
                 "tests/images and tests/compose*/ (pre-productmd, 0.x and 1.x files).  For each ACCEPTED document: observation == expected "
                 "facts (spec with documented defaults for fields the old format lacks), written header = current version + type, re-load "
                 "gives an identical observation, second write byte-identical.  Rejections and inexpressible shapes are counted per "
@@ -343,7 +402,6 @@ def describe(tier):
         "model_binding": "every generated document is loaded by the real library; expected facts come from the spec the document "
                          "was generated from",
         "assumptions": ["shapes an older format cannot express (depth-3 forests and layered-product variants below their versions, "
-                        "0.3 source trees, free-form ids below 0.3) are kept out of the generator",
-                        "generated pre-productmd (0.0) treeinfos are covered through C17's compatibility-section cross-check; here "
-                        "0.0 files come from the shipped fixtures"],
+                        "free-form ids below 0.3, multi-variant or nested pre-productmd trees) are kept out of the generator",
+                        "the 0.3 / pre-productmd source-tree path mapping (source paths under the plain keys) is read off the readers"],
     }
